@@ -463,6 +463,29 @@ func (env *SpecEnv) call(n *ECall) SVal {
 			unsupp("as(x, \"*pkg.Type\")")
 		}
 		return SVal{V: scalar(v.V.T), T: env.typeByName(sx.V)}
+	case "call":
+		// call("key", args...): the value a pure external function (spec'd `pure`) returns for these arguments
+		kx, ok := n.Args[0].(*EStr)
+		if !ok {
+			unsupp("call(\"function key\", args...)")
+		}
+		var ts []*Term
+		for _, a := range n.Args[1:] {
+			ts = append(ts, env.eval(a).V.flat()...)
+		}
+		srt := SInt
+		if strings.HasSuffix(kx.V, ".String") {
+			srt = SSeq
+		}
+		return SVal{V: scalar(App("fn$"+kx.V, srt, ts...)), G: map[string]string{SInt: "Ref", SSeq: "Seq"}[srt]}
+	case "deref":
+		// deref(p): the value a pointer to a non-struct points to
+		v := env.eval(n.Args[0])
+		pt, ok := v.T.Underlying().(*types.Pointer)
+		if !ok {
+			unsupp("deref of non-pointer")
+		}
+		return SVal{V: env.st().load(derefPlace(v.V.T, v.T)), T: pt.Elem()}
 	case "ival":
 		v := env.eval(n.Args[0])
 		return SVal{V: scalar(v.V.Fs[1].T), G: "Ref"}
